@@ -634,7 +634,58 @@ def build_T16f(tree):
     return '\n\n'.join(parts), hashlib.sha256('\n'.join(shas).encode()).hexdigest()
 
 
+# ---------------------------------------------------------------- T16g: what the queries write on the report object
+def build_T16g(tree):
+    """For the three query methods and every method of the report they call on `self` (transitively): the attributes of the
+    report object they WRITE - `self.x = …`, `self.x op= …`, `del self.x`, `setattr(self, …)` / `object.__setattr__(self, …)`
+    / `delattr(self, …)`, `self.__dict__[…] = …` / `vars(self)[…] = …` - memoising decorators, `global` / `nonlocal`
+    statements.  Gen.queryWritesOnSelf : List (String × List String): empty lists = a query leaves nothing behind that a
+    later query could read (no cache that an in-place edit of the report can make stale)."""
+    todo = ['get_planar_roi_measurement_groups', 'get_volumetric_roi_measurement_groups', 'get_image_measurement_groups']
+    seen, rows, shas = [], [], []
+    cls = [n for n in ast.walk(tree) if isinstance(n, ast.ClassDef) and n.name == 'MeasurementReport']
+    if len(cls) != 1:
+        raise Unsupported('class MeasurementReport not found')
+    own = {n.name for n in cls[0].body if isinstance(n, (ast.FunctionDef, ast.AsyncFunctionDef))}
+    while todo:
+        meth = todo.pop(0)
+        if meth in seen:
+            continue
+        seen.append(meth)
+        fn = find_func(tree, f'MeasurementReport.{meth}')
+        w = []
+        for d in fn.decorator_list:
+            t = ast.unparse(d)
+            if t not in ('classmethod', 'staticmethod', 'property'):
+                w.append('decorator:' + t)
+        for n in ast.walk(fn):
+            if isinstance(n, ast.Attribute) and isinstance(n.ctx, (ast.Store, ast.Del)) and ast.unparse(n.value) == 'self':
+                w.append(n.attr)
+            elif isinstance(n, ast.Subscript) and isinstance(n.ctx, (ast.Store, ast.Del)) and \
+                    ast.unparse(n.value) in ('self.__dict__', 'vars(self)'):
+                w.append('__dict__[' + ast.unparse(n.slice) + ']')
+            elif isinstance(n, ast.Call):
+                f = ast.unparse(n.func)
+                if f in ('setattr', 'delattr', 'object.__setattr__', 'object.__delattr__') and n.args and ast.unparse(n.args[0]) == 'self':
+                    w.append(f + ':' + (ast.unparse(n.args[1]) if len(n.args) > 1 else '?'))
+                if f in ('self.__dict__.update', 'self.__dict__.setdefault', 'vars(self).update', 'vars(self).setdefault',
+                         'self.__setattr__', 'self.__delattr__'):
+                    w.append(f)
+                if isinstance(n.func, ast.Attribute) and ast.unparse(n.func.value) == 'self' and n.func.attr in own:
+                    todo.append(n.func.attr)
+            elif isinstance(n, (ast.Global, ast.Nonlocal)):
+                w += [type(n).__name__.lower() + ':' + x for x in n.names]
+        rows.append((meth, sorted(set(w))))
+        shas.append(ast.unparse(fn))
+    q = lambda x: '"' + x.replace('\\', '\\\\').replace('"', '\\"') + '"'   # noqa: E731
+    t = lean_table('queryWritesOnSelf', 'List (String × List String)',
+                   ['(' + q(m) + ', [' + ', '.join(q(c) for c in cs) + '])' for m, cs in rows],
+                   doc='per query method (and every method of the report it calls on self): what it writes on the report object')
+    return t, hashlib.sha256('\n'.join(shas).encode()).hexdigest()
+
+
 TARGETS = {
+    'T16g': {'file': 'sr/templates.py', 'build': build_T16g},
     'T16f': {'file': 'sr/templates.py', 'build': build_T16f},
     'T16e': {'file': 'sr/templates.py', 'build': build_T16e},
     'T16d': {'file': 'sr/templates.py', 'build': build_T16d},
